@@ -564,16 +564,29 @@ end straight
 
 /-! ### aggregate_dendrogram -/
 
+/-- after all the merges of a valid dendrogram the root alone is alive, with the `n` leaves -/
+theorem aggregate_root_only {D : Dendro α} {n : Nat} (hv : ValidDendro n D = true) :
+    [n] = (liveNodes n D (n - 1)).map (fun x => (leaves n D x).length) := by
+  have hlen := valid_length hv
+  obtain ⟨h1, h2⟩ := liveNodes_weights hv (m := n - 1) (by omega)
+  have hl : ((liveNodes n D (n - 1)).map (fun x => (leaves n D x).length)).length = 1 := by
+    rw [List.length_map]; omega
+  match hw : (liveNodes n D (n - 1)).map (fun x => (leaves n D x).length), hl with
+  | [a], _ => rw [hw] at h2; simp at h2; rw [h2]
+
 /-- **aggregate_dendrogram** (`aggregate_valid`): for a valid dendrogram over `n` leaves and `1 ≤ n_clusters ≤ n`, the
     function returns (never raises), the aggregated dendrogram keeps the heights of the last `n_clusters - 1` merges
     and is a valid dendrogram over `n_clusters` leaves weighted by `w`, where `w` — the counts returned with
-    `return_counts=True` — are the sizes of the subtrees the new leaves stand for, and sum to `n`.
-    (False on the pinned tree: F5, repaired.) -/
+    `return_counts=True` — is determined: `w[c]` is the number of leaves of the `c`-th (in increasing order of node id)
+    cluster alive after the first `n - n_clusters` merges (`liveNodes`), and `w` sums to `n`.
+    (False on the pinned tree: F5, repaired.)  That row `u` of the aggregated dendrogram has the leaf set of row
+    `n - n_clusters + u` of `D` is checked on every run by `aggSpec`, not proved. -/
 theorem aggregate_valid {D : Dendro α} {n k : Nat} (hv : ValidDendro n D = true) (hk1 : 1 ≤ k) (hkn : k ≤ n)
     (cnt : Bool) :
     ∃ out w, aggregateDendrogram D k cnt = .ok out ∧ w.length = k ∧ w.sum = n ∧
       ValidDendroW w out.dendro = true ∧
-      out.dendro.map (·.h) = (D.drop (n - k)).map (·.h) ∧ (cnt = true → out.counts = some w) := by
+      out.dendro.map (·.h) = (D.drop (n - k)).map (·.h) ∧ (cnt = true → out.counts = some w) ∧
+      w = (liveNodes n D (n - k)).map (fun x => (leaves n D x).length) := by
   by_cases hk2 : 2 ≤ k
   · exact aggregate_ge2 hv hk2 hkn cnt
   · have hk : k = 1 := by omega
@@ -596,7 +609,7 @@ theorem aggregate_valid {D : Dendro α} {n k : Nat} (hv : ValidDendro n D = true
         simp only [Nat.sub_self, List.getElem?_cons_zero]
         rw [valid_last_size hv]
     refine ⟨{ dendro := [], counts := if cnt then some [n] else none }, [n], ?_, rfl, by simp,
-      by simp [ValidDendroW, validLoop], ?_, ?_⟩
+      by simp [ValidDendroW, validLoop], ?_, ?_, ?_⟩
     · unfold aggregateDendrogram
       have e1 : ¬ (1 > D.length + 1) := by omega
       simp only [bind, Except.bind, throw, throwThe, MonadExceptOf.throw, e1, if_false, pure, Except.pure,
@@ -608,6 +621,9 @@ theorem aggregate_valid {D : Dendro α} {n k : Nat} (hv : ValidDendro n D = true
     · have : n - 1 = D.length := by omega
       simp [this]
     · intro hc; simp [hc]
+    · -- a single cluster is alive after all the merges: the root, with the n leaves
+      have hres := aggregate_root_only hv
+      rw [hres]
 
 /-- non-vacuity, and the witness of the repaired defect F5: 5 leaves aggregated to 3 clusters, one of which is an
     original leaf -/
